@@ -141,6 +141,27 @@ Theorem C01_tie_conclusions :
 Proof. intros. eapply tie_conclusions; eassumption. Qed.
 Print Assumptions C01_tie_conclusions.
 
+(** The same for the two-block optimisation (two_block_optimized = True): [tb_ok] says that there
+    are exactly two blocks, nothing inside them is eliminated and both carry the commuting flag. *)
+From PV.Alg Require Import TruncTieTB.
+Theorem C01_tie_conclusions_two_block :
+  forall (D k N : nat) (bl : list nat) (msk : list (list bool)) (cb : list bool) (El : list gq)
+         (sols : list (string * tser gq)),
+    check_alg D k N bl msk cb El true sols main_alg = true ->
+    inputs_ok D k N bl msk cb El sols = true ->
+    tb_ok D bl msk cb = true ->
+    let BA := BAi D k bl msk cb in
+    let sol := asol D k sols in
+    eqN D k N (Sel (sol "U†" * sol "H" * sol "U")) (sol "H_tilde") /\
+    eqN D k N (Rp (sol "U†" * sol "H" * sol "U")) 0 /\
+    eqN D k N (sol "U†" * sol "U") 1 /\
+    eqN D k N (sol "U" * sol "U†") 1 /\
+    eqN D k N (adj (sol "U")) (sol "U†") /\
+    eqN D k N (adj (sol "H_tilde")) (sol "H_tilde") /\
+    eqN D k N (Sel (half ((sol "U" - 1) - adj (sol "U" - 1)))) 0.
+Proof. intros. eapply tie_conclusions_tb; eassumption. Qed.
+Print Assumptions C01_tie_conclusions_two_block.
+
 Import ListNotations.
 Require Import QArith.
 Example C01_tie_conclusions_applies :
@@ -149,3 +170,4 @@ Example C01_tie_conclusions_applies :
   inputs_ok 4 2 2 [0;1;1;2]%nat [[true;false;false;false];[false;true;true;false];[false;true;true;false];[false;false;false;true]]
             [true;true;true] [((0#1),(0#1));((2#1),(0#1));((2#1),(0#1));((5#1),(0#1))]%Q main_wit_sols = true.
 Proof. split; vm_compute; reflexivity. Qed.
+
